@@ -18,6 +18,7 @@ RULE = (
     "filter; every step's inputs (Python's previous outputs, printed %.17g) are replayed on the compiled generated C++ "
     "filter and state, covariance, stored innovation and accept/reject are compared by name. One evaluation = one step "
     "compared. distinct = (program, configuration, sequence); non-trivial = sequences with >= 1 update."
+    " One further start per program: a prior symmetric only to 4e-6 (inside the library's own tolerance), used for a single step."
 )
 ASSUMPTIONS = [
     "well-conditioned inputs: covariances from the menu, readings within 3 units of the prediction",
@@ -69,6 +70,13 @@ def eval_case(case):
     for pi, env in enumerate(space.some_points(st, 2, case["seed"])):
         P = [[(1.0 + 0.5 * i + pi) if i == j else (0.125 if pi == 0 else -0.0625 * (i + j)) for j in range(n_s)] for i in range(n_s)]
         inits.append(([env[s] for s in st], P))
+    if n_s >= 2:
+        # a prior that is symmetric only to 4e-6 (inside the tolerance of the library's own validity check): both implementations
+        # take the matrix as given, so formulas that agree only for an exactly symmetric P come apart here
+        xa, Pa = inits[0]
+        Pa = [list(r) for r in Pa]
+        Pa[0][n_s - 1] = Pa[0][n_s - 1] * (1.0 + 2.0 ** -18)
+        inits.append((list(xa), Pa))
     ctrl = {c: 0.5 + 0.75 * i for i, c in enumerate(ct)}
 
     # run every sequence on the Python filter, collecting one C++ evaluation point per step
@@ -114,8 +122,10 @@ def eval_case(case):
             expect.append(exp)
             rec(x2, P2, depth - 1, seq + [list(ev)])
 
-    for x0, P0 in inits:
-        rec(x0, P0, case["depth"], [])
+    for ii, (x0, P0) in enumerate(inits):
+        # the asymmetric prior is used for ONE step only: a prediction does not symmetrise, so its asymmetry may legitimately grow
+        # past the validity check's tolerance along a longer history
+        rec(x0, P0, 1 if ii == 2 else case["depth"], [])
     if not points:
         return {"n": 1, "fails": fails or [{"key": "no-steps", "what": f"{tag}: python filter produced no step"}]}
     cfg = {"cse": case["cse"], "innovation_filtering": case["k"]}
